@@ -6,7 +6,9 @@ P=/verif/seeded/$ID/patch.diff
 cd /repo || exit 2
 if ! git diff --quiet; then echo "/repo has uncommitted changes"; exit 2; fi
 git apply "$P" || { echo "patch does not apply"; exit 2; }
-trap 'git -C /repo checkout -- . ' EXIT
+# evidence files must only ever describe the unchanged tree: keep them aside while the patch is applied
+rm -rf /verif/target/evidence.keep; cp -r /verif/evidence /verif/target/evidence.keep
+trap 'git -C /repo checkout -- . ; rm -rf /verif/evidence; mv /verif/target/evidence.keep /verif/evidence' EXIT
 for prop in "$@"; do
   out=$(cd /verif && ./check $prop 2>&1); rc=$?
   echo "SEED $ID check $prop -> exit $rc: $(echo "$out" | grep -E 'VIOLATION|MACHINERY|KNOWN' | head -3 | tr '\n' ' ')"
